@@ -23,11 +23,11 @@ Definition toy_cdec (i : N) (s : stream) : dres :=
 Example toy_codec_ok : forall c l b, toy_dec c (toy_enc c l b, E_EOF) = DStream (b, E_EOF).
 Proof. reflexivity. Qed.
 
-Definition gz (l : Z) : ccfg := {| c_type := s_gzip; c_level := l |}.
+Definition gz (l : Z) : ccfg := {| c_type := s_gzip; c_level := l; c_hdr := None |}.
 Definition srv (mx : Z) (algs : option (list string)) (cu : list (string * option N)) : scfg :=
   {| s_max := mx; s_algs := algs; s_custom := cu |}.
 Definition rq (ce : list string) (b : bytes) : creq :=
-  {| q_ce := ce; q_body := Some b; q_stream := false; q_rerr := false; q_cerr := false |}.
+  {| q_ce := ce; q_body := Some b; q_raw := []; q_stream := false; q_rerr := false; q_cerr := false |}.
 Definition wr (ce : list string) (b : bytes) : wreq := {| w_ce := ce; w_body := b; w_cl := blen b; w_rewind := Some b |}.
 
 (* all hypotheses of [roundtrip] hold for a concrete non-trivial instance, and the conclusion computes *)
@@ -61,7 +61,7 @@ Proof. vm_compute. reflexivity. Qed.
 
 (* identity is an entry of the enabled list like any other: without "" an uncompressed request is refused *)
 Example ex_identity_not_enabled :
-  e2e toy_enc toy_dec toy_cdec {| c_type := s_empty; c_level := 0 |} (srv 100 (Some [s_gzip]) []) (rq [] [1;2;3]%N)
+  e2e toy_enc toy_dec toy_cdec {| c_type := s_empty; c_level := 0; c_hdr := None |} (srv 100 (Some [s_gzip]) []) (rq [] [1;2;3]%N)
   = Some (Rejected 400).
 Proof. vm_compute. reflexivity. Qed.
 
@@ -91,9 +91,9 @@ Proof. vm_compute. repeat split. Qed.
 
 (* a body that fails while being compressed: nothing is sent; with a preset header it is not touched *)
 Example ex_body_error :
-  client toy_enc (gz 0) {| q_ce := []; q_body := Some [1]%N; q_stream := false; q_rerr := true; q_cerr := false |} = CError /\
-  client toy_enc (gz 0) {| q_ce := []; q_body := Some [1]%N; q_stream := false; q_rerr := false; q_cerr := true |} = CError /\
-  client toy_enc (gz 0) {| q_ce := []; q_body := None; q_stream := false; q_rerr := true; q_cerr := true |}
+  client toy_enc (gz 0) {| q_ce := []; q_body := Some [1]%N; q_raw := []; q_stream := false; q_rerr := true; q_cerr := false |} = CError /\
+  client toy_enc (gz 0) {| q_ce := []; q_body := Some [1]%N; q_raw := []; q_stream := false; q_rerr := false; q_cerr := true |} = CError /\
+  client toy_enc (gz 0) {| q_ce := []; q_body := None; q_raw := []; q_stream := false; q_rerr := true; q_cerr := true |}
     = CSent (wr ([s_gzip]) ([7]%N)).
 Proof. vm_compute. repeat split. Qed.
 
@@ -103,10 +103,10 @@ Example ex_chunked :
     = Handled [] (-1) ([1;2;3]%N, E_TOOLARGE) /\
   server toy_dec toy_cdec (srv 3 None []) {| w_ce := [s_gzip]; w_body := [7;1;2;3;4]%N; w_cl := (-1); w_rewind := None |}
     = Handled [] (-1) ([1;2]%N, E_TOOLARGE) /\
-  client toy_enc {| c_type := s_none; c_level := 0 |}
-         {| q_ce := []; q_body := Some [1;2]%N; q_stream := true; q_rerr := false; q_cerr := false |}
+  client toy_enc {| c_type := s_none; c_level := 0; c_hdr := None |}
+         {| q_ce := []; q_body := Some [1;2]%N; q_raw := []; q_stream := true; q_rerr := false; q_cerr := false |}
     = CSent {| w_ce := []; w_body := [1;2]%N; w_cl := (-1); w_rewind := None |} /\
-  client toy_enc (gz 0) {| q_ce := []; q_body := Some [1;2]%N; q_stream := true; q_rerr := false; q_cerr := false |}
+  client toy_enc (gz 0) {| q_ce := []; q_body := Some [1;2]%N; q_raw := []; q_stream := true; q_rerr := false; q_cerr := false |}
     = CSent {| w_ce := [s_gzip]; w_body := [7;1;2]%N; w_cl := 3; w_rewind := Some [7;1;2]%N |}.
 Proof. vm_compute. repeat split. Qed.
 
@@ -118,16 +118,17 @@ Proof. vm_compute. reflexivity. Qed.
 (* configuration: level 0 means "default" for every type; levels are validated per type *)
 Example ex_levels :
   client_validate (gz 10) = false /\ client_validate (gz (-2)) = true /\
-  client_validate {| c_type := s_snappy; c_level := 1 |} = false /\
-  client_validate {| c_type := s_zstd; c_level := 99 |} = true /\
+  client_validate {| c_type := s_snappy; c_level := 1; c_hdr := None |} = false /\
+  client_validate {| c_type := s_zstd; c_level := 99; c_hdr := None |} = true /\
   effective_level 0 = (-1)%Z /\ effective_level 5 = 5%Z /\
-  client toy_enc {| c_type := "br"%string; c_level := 0 |} (rq [] []) = CRefused.
+  client toy_enc {| c_type := "br"%string; c_level := 0; c_hdr := None |} (rq [] []) = CRefused.
 Proof. vm_compute. repeat split. Qed.
 
 (* ---- the counterexamples behind the [..._refuted] theorems of Properties.v ------------------------- *)
 Lemma wire_bound_needed_l :
   exists enc dec cdec cc sc r, codec_law enc dec /\
-    client_validate cc = true /\ is_compressed cc.(c_type) = true /\ r.(q_ce) = [] /\ body_ok r = true /\
+    client_validate cc = true /\ is_compressed cc.(c_type) = true /\ cc.(c_hdr) = None /\ r.(q_raw) = [] /\
+    r.(q_ce) = [] /\ body_ok r = true /\
     In cc.(c_type) (eff_algs sc) /\ ~ In cc.(c_type) (map fst sc.(s_custom)) /\
     (Z.of_nat (List.length (body_bytes r.(q_body))) <= eff_max sc)%Z /\
     e2e enc dec cdec cc sc r <> Some (Handled [] (-1) (body_bytes r.(q_body), E_EOF)).
@@ -140,7 +141,8 @@ Qed.
 
 Lemma empty_preset_value_l :
   exists enc dec cdec cc sc r, codec_law enc dec /\
-    client_validate cc = true /\ is_compressed cc.(c_type) = true /\ hget r.(q_ce) = s_empty /\ body_ok r = true /\
+    client_validate cc = true /\ is_compressed cc.(c_type) = true /\ cc.(c_hdr) = None /\ r.(q_raw) = [] /\
+    hget r.(q_ce) = s_empty /\ body_ok r = true /\
     In cc.(c_type) (eff_algs sc) /\ ~ In cc.(c_type) (map fst sc.(s_custom)) /\
     (Z.of_nat (List.length (body_bytes r.(q_body))) <= eff_max sc)%Z /\
     (forall c, Z.of_nat (List.length (enc c (-1)%Z (body_bytes r.(q_body)))) <= eff_max sc)%Z /\
@@ -157,6 +159,38 @@ Lemma identity_not_enabled_l :
   exists enc dec cdec cc sc r, is_compressed cc.(c_type) = false /\ r.(q_ce) = [] /\
     e2e enc dec cdec cc sc r = Some (Rejected 400).
 Proof.
-  exists toy_enc, toy_dec, toy_cdec, {| c_type := s_empty; c_level := 0 |}, (srv 100 (Some [s_gzip]) []), (rq [] [1;2;3]%N).
+  exists toy_enc, toy_dec, toy_cdec, {| c_type := s_empty; c_level := 0; c_hdr := None |}, (srv 100 (Some [s_gzip]) []), (rq [] [1;2;3]%N).
   vm_compute. repeat split.
 Qed.
+
+Lemma configured_header_breaks_roundtrip_l :
+  exists enc dec cdec cc sc r c, codec_law enc dec /\
+    client_validate cc = true /\ is_compressed cc.(c_type) = true /\ writer_codec cc.(c_type) = Some c /\
+    cc.(c_hdr) <> None /\ r.(q_ce) = [] /\ r.(q_raw) = [] /\ body_ok r = true /\
+    In cc.(c_type) (eff_algs sc) /\ ~ In cc.(c_type) (map fst sc.(s_custom)) /\
+    (Z.of_nat (List.length (body_bytes r.(q_body))) <= eff_max sc)%Z /\
+    (forall l, Z.of_nat (List.length (enc c l (body_bytes r.(q_body)))) <= eff_max sc)%Z /\
+    exists ce cl s, e2e enc dec cdec cc sc r = Some (Handled ce cl s) /\ fst s <> body_bytes r.(q_body).
+Proof.
+  exists toy_enc, toy_dec, toy_cdec, {| c_type := s_gzip; c_level := 0; c_hdr := Some s_empty |},
+         (srv 100 None []), (rq [] [1;2;3]%N), CGzip.
+  split; [exact toy_codec_ok|].
+  repeat split; try reflexivity; try (vm_compute; auto 10; fail); try (vm_compute; tauto);
+    try (vm_compute; discriminate); try (intros l; vm_compute; discriminate).
+  - exists [s_empty], 4%Z, ([7;1;2;3]%N, E_EOF). split; [vm_compute; reflexivity|vm_compute; discriminate].
+Qed.
+
+(* the chain on concrete inputs: a configured header with another codec's name => 400 (toy decoder of the
+   wrong... here: unknown name); with the type's own name => round trip; lower-case preset => compressed again,
+   decoded once: the handler gets the caller's (still encoded) bytes without any Content-Encoding *)
+Example ex_headers_chain :
+  e2e toy_enc toy_dec toy_cdec {| c_type := s_gzip; c_level := 0; c_hdr := Some "br"%string |} (srv 100 None []) (rq [] [1;2]%N)
+    = Some (Rejected 400) /\
+  e2e toy_enc toy_dec toy_cdec {| c_type := s_gzip; c_level := 0; c_hdr := Some s_gzip |} (srv 100 None []) (rq [] [1;2]%N)
+    = Some (Handled [] (-1) ([1;2]%N, E_EOF)) /\
+  e2e toy_enc toy_dec toy_cdec {| c_type := s_none; c_level := 0; c_hdr := Some s_gzip |} (srv 100 None []) (rq [] [1;2]%N)
+    = Some (Rejected 400) /\
+  e2e toy_enc toy_dec toy_cdec (gz 0) (srv 100 None [])
+      {| q_ce := []; q_body := Some [7;5]%N; q_raw := [s_gzip]; q_stream := false; q_rerr := false; q_cerr := false |}
+    = Some (Handled [] (-1) ([7;5]%N, E_EOF)).
+Proof. vm_compute. repeat split. Qed.
